@@ -95,3 +95,109 @@ Example C12_pinned_unit_test_push_slices :
   fst (push_slice [] [42]) = [42] /\
   fst (push_slice [] (zeros 32 ++ [42])) = [0; 42].
 Proof. vm_compute. split; reflexivity. Qed.
+
+(* ================================================================ composition with the reference
+   interpreter of C01 (Model/Step.v + Model/Evm.v; its stack is a top-first list and Step.v
+   performs the pop! / push! checks of each instruction itself, so the statements are proved
+   directly on it).  Proofs in Proofs/EvmMiscStack.v.
+   The reference for how many words an instruction takes and leaves is NOT the model: [op_io] reads
+   (inputs, outputs) from Gen/OpInfo.v, the table reflected from the compiled revm
+   (OPCODE_INFO_JUMPTABLE).  [reach]: the states a run executes an instruction from (C04/C07). *)
+From RevmV Require Import Model.Step Model.Evm Proofs.EvmProofs Proofs.EvmMiscProofs Proofs.EvmMiscStack.
+
+(* one instruction, every opcode / hardfork / state: if the frame continues, the instruction took
+   [inputs] words (they were there) and left [outputs], and the stack holds at most 1024 words; a
+   call / create took its inputs and its one output is pushed when the frame resumes;
+   StackUnderflow is reported only when fewer than [inputs] words are there, StackOverflow only
+   when the result would exceed 1024 words; in both cases the output is empty and the transaction
+   state is exactly what it was (one exception, which is what revm does: SELFBALANCE asks the host
+   before it pushes, so on a full stack the executing account has been (re-)loaded) *)
+Theorem C12_interpreter_instruction_stack_effect :
+  forall W G F I G' x,
+    Step.zlen (i_stk I) <= 1024 -> step W G F I = (G', x) ->
+    let op := opcode_at F (i_pc I) in
+    let ins := fst (op_io op) in let outs := snd (op_io op) in let n := Step.zlen (i_stk I) in
+    match x with
+    | SNext I' => ins <= n /\ Step.zlen (i_stk I') = n - ins + outs /\ Step.zlen (i_stk I') <= 1024
+    | SCall _ I' | SCreate _ I' => 1 <= ins <= n /\ Step.zlen (i_stk I') = n - ins /\ outs = 1
+    | SEnd r out I' =>
+        (r = R_StackUnderflow -> n < ins /\ out = [] /\ G' = G) /\
+        (r = R_StackOverflow -> ins <= n /\ 1024 < n - ins + outs /\ out = [] /\
+           (G' = G \/ (op = 0x47 /\ G' = set_s G (fst (H.load_account (gdb W G) (gs G) (f_target F))))))
+    | SBad _ => True
+    end.
+Proof. exact step_stack. Qed.
+
+(* an instruction whose inputs exceed the stack never continues: the frame ends *)
+Theorem C12_interpreter_short_stack_ends_frame :
+  forall W G F I,
+    Step.zlen (i_stk I) <= 1024 -> Step.zlen (i_stk I) < fst (op_io (opcode_at F (i_pc I))) ->
+    match snd (step W G F I) with SEnd _ _ _ | SBad _ => True | _ => False end.
+Proof. exact step_short_stack_ends. Qed.
+
+(* the caller resumed after a call / create has the table's effect as well *)
+Theorem C12_interpreter_call_stack_effect :
+  forall W G F I G1 c I1 r I2,
+    Step.zlen (i_stk I) <= 1024 -> step W G F I = (G1, SCall c I1) -> insert_call_outcome I1 c r = Some I2 ->
+    let ins := fst (op_io (opcode_at F (i_pc I))) in
+    Step.zlen (i_stk I2) = Step.zlen (i_stk I) - ins + snd (op_io (opcode_at F (i_pc I))) /\
+    Step.zlen (i_stk I2) <= 1024.
+Proof. exact call_stack_effect. Qed.
+Theorem C12_interpreter_create_stack_effect :
+  forall W G F I G1 c I1 r a I2,
+    Step.zlen (i_stk I) <= 1024 -> step W G F I = (G1, SCreate c I1) -> insert_create_outcome I1 r a = Some I2 ->
+    let ins := fst (op_io (opcode_at F (i_pc I))) in
+    Step.zlen (i_stk I2) = Step.zlen (i_stk I) - ins + snd (op_io (opcode_at F (i_pc I))) /\
+    Step.zlen (i_stk I2) <= 1024.
+Proof. exact create_stack_effect. Qed.
+
+(* along a whole run — the frame itself and every frame nested below it, each starting with an
+   empty stack — no state holds more than 1024 words *)
+Theorem C12_interpreter_stack_bounded :
+  forall W f G F I Gx Fx Ix,
+    reach W f G F I Gx Fx Ix -> Step.zlen (i_stk I) <= 1024 -> Step.zlen (i_stk Ix) <= 1024.
+Proof. exact reach_stack. Qed.
+
+(* non-vacuity: PUSH1 1; PUSH1 2; ADD; POP; POP; STOP — the second POP underflows; a PUSH1 on 1024
+   words overflows; both leave the state alone; the run reaches the state before the second POP *)
+Definition ex12_code : list Z := [0x60; 1; 0x60; 2; 0x01; 0x50; 0x50; 0x00].
+Example C12_interpreter_example :
+  let W := mx_world ex12_code in let F := mx_frame ex12_code in let G := gstate_new W in
+  op_io 0x01 = (2, 1) /\ op_io 0x50 = (1, 0) /\ op_io 0xf1 = (7, 1) /\
+  (exists I', step W G F (mkI 6 [] M.mem_new (Gas.gas_new 100) []) = (G, SEnd R_StackUnderflow [] I')) /\
+  (exists I', step W G F (mkI 0 (repeat 0 1024) M.mem_new (Gas.gas_new 100) []) = (G, SEnd R_StackOverflow [] I')) /\
+  (exists g, reach W 5 G F (istate_new 100) G F (mkI 6 [] M.mem_new g [])).
+Proof.
+  intros W F G. split; [reflexivity|]. split; [reflexivity|]. split; [reflexivity|]. split; [|split].
+  - eexists. vm_compute. reflexivity.
+  - eexists. vm_compute. reflexivity.
+  - eexists. do 4 (eapply RNext; [vm_compute; reflexivity|]). apply RHere.
+Qed.
+
+(* two readings that are FALSE of the interpreter (and of revm), kept as witnesses.
+   (1) "a stack error leaves the frame's stack unchanged": CALL pops gas, address and value before
+   it asks for the four memory operands, so with 3 words the frame ends with StackUnderflow holding
+   an emptied stack (the Stack methods each leave it unchanged - C12_error_leaves_stack_unchanged -
+   but the instruction is several method calls; the halted frame's stack is dead anyway). *)
+Theorem C12_interpreter_error_leaves_frame_stack_unchanged_refuted :
+  exists W G F I G' out I',
+    Step.zlen (i_stk I) <= 1024 /\ step W G F I = (G', SEnd R_StackUnderflow out I') /\ i_stk I' <> i_stk I.
+Proof.
+  exists (mx_world [0xf1]), (gstate_new (mx_world [0xf1])), (mx_frame [0xf1]),
+         (mkI 0 [1; 2; 3] M.mem_new (Gas.gas_new 100) []).
+  eexists. eexists. eexists. split; [vm_compute; discriminate|]. split; [vm_compute; reflexivity|]. vm_compute. discriminate.
+Qed.
+(* (2) "StackOverflow never changes the transaction state": SELFBALANCE on 1024 words, executed in
+   a state that does not hold the executing account yet, ends with StackOverflow after the host
+   loaded it (in a real run the executing account is already loaded and warm, so the load is the
+   identity there; the theorem above states the exception instead of assuming that) *)
+Theorem C12_interpreter_overflow_leaves_state_unchanged_refuted :
+  exists W G F I G' out I',
+    Step.zlen (i_stk I) <= 1024 /\ step W G F I = (G', SEnd R_StackOverflow out I') /\
+    H.st (gs G) (f_target F) = None /\ H.st (gs G') (f_target F) <> None.
+Proof.
+  exists (mx_world [0x47]), (gstate_new (mx_world [0x47])), (mx_frame [0x47]),
+         (mkI 0 (repeat 0 1024) M.mem_new (Gas.gas_new 100) []).
+  eexists. eexists. eexists. split; [vm_compute; discriminate|]. split; [vm_compute; reflexivity|].
+  split; [vm_compute; reflexivity|vm_compute; discriminate].
+Qed.
